@@ -143,7 +143,10 @@ UndoRestores == [][last'.op = "undo" => (tr' = prev /\ last'.w = -last.w)]_vars
 
 ---------------------------------------------------------------------------
 \* Role D: trace validation.  Log is a JSON array of events (see harness/eng_dists.py):
-\*   n h i dist tag op cons sel a0 a1 v0 vc v1 s0 s1 w disc fresh lp1 lp0 lpc fin big
+\*   n h i dist tag op via cons sel a0 a1 ar v0 vc v1 s0 s1 w disc fresh lp1 lp0 lpc fin big
+\* ar = the argument point the returned trace RECORDS (projection of tr.get_args()), 0 if neither;
+\* via = the API spelling used (update | trupdate | trupdate0 = Trace.update with default argdiffs |
+\*       clupdate = closure spelling dist(params).update(key, tr, chm, ()) | assess_tr = assess at tr.get_args() ...)
 \*   sup dt dtdoc shp shpdoc twins status raised
 \* lp1 = LP(a1,v1), lp0 = LP(a0,v0), lpc = LP(a1,vc): the TFP oracle, fixed point.
 Log == JsonDeserialize(IOEnv.TRACE_FILE)
@@ -179,13 +182,14 @@ Verdicts(e) ==
   ELSE LET x == Expected(e)
            main == e.op \in {"simulate", "generate", "update", "assess"}
        IN  (IF main /\ x.tr.v # e.v1 THEN {"C24.value"} ELSE {})
+      \cup (IF e.op \in {"simulate", "generate", "update"} /\ x.tr.a # e.ar THEN {"C24.args"} ELSE {})
       \cup (IF main /\ e.fin /\ ~Close(x.tr.s, e.s1, e.big) THEN {"C24.score"} ELSE {})
       \cup (IF e.op \in {"generate", "update"} /\ e.fin /\ ~Close(x.w, e.w, e.big) THEN {"C24.weight"} ELSE {})
       \cup (IF e.fresh /\ ~e.sup THEN {"C24.support"} ELSE {})
       \cup (IF e.fresh /\ e.dt # e.dtdoc THEN {"C24.dtype"} ELSE {})
       \cup (IF e.fresh /\ e.shp # e.shpdoc THEN {"C24.shape"} ELSE {})
       \cup (IF TwinBad(e) THEN {"C24.kwargs"} ELSE {})
-      \cup (IF e.op = "regenerate" /\ x.tr.v # e.v1 THEN {"AUX.regen.value"} ELSE {})
+      \cup (IF e.op = "regenerate" /\ (x.tr.v # e.v1 \/ x.tr.a # e.ar) THEN {"AUX.regen.value"} ELSE {})
       \cup (IF e.op = "regenerate" /\ e.fin /\ ~Close(x.tr.s, e.s1, e.big) THEN {"AUX.regen.score"} ELSE {})
       \cup (IF e.op = "regenerate" /\ e.fin /\ ~Close(x.w, e.w, e.big) THEN {"AUX.regen.weight"} ELSE {})
       \cup (IF e.op = "project" /\ e.fin /\ ~Close(x.w, e.w, e.big) THEN {"AUX.project"} ELSE {})
